@@ -263,6 +263,21 @@ func ZZ_C16_Converters() {
 		check("attached")
 		zz.Assert(mgr.UpdateTag("service/web", UpdateTagOperationUpdateQuery("sport:443")) == nil, "updatetag")
 		check("definition-edited")
+	case 9: // output of a converter attached to no tag is requested on demand; a later import extends the stream; then the converter is attached
+		imp("a.pcap")
+		zzSettle(mgr)
+		v := mgr.GetView()
+		sc, err := v.Stream(0)
+		zz.Assert(err == nil && sc.Stream() != nil, "scenario.view-has-stream-0")
+		_, err = sc.Data("conv")
+		zz.Assert(err == nil, "ondemand.converter-data.noerr")
+		v.Release()
+		zzInService(mgr, func() { zz.Assert(conv.Contains(0), "scenario.on-demand-output-was-cached") })
+		check("converted-on-demand")
+		imp("c0.pcap")
+		check("on-demand-then-extended")
+		attach("service/web")
+		check("on-demand-then-extended-then-attached")
 	case 5: // the converter is restarted: everything is converted again
 		imp("a.pcap")
 		zzSettle(mgr)
